@@ -15,7 +15,8 @@ abbrev RegexOracle := String → String → Option Bool
 
 /-! ### preprocess.go -/
 
-/-- `asPrimitiveValueKey` -/
+/-- `asPrimitiveValueKey` (`switch v.Type()`: a raw value has `RawType`, hence is not a primitive
+key — the catch-all case). -/
 def asPrimKey : J → PrimKey
   | .bool b => .bool b
   | .num q => .num q
@@ -24,13 +25,16 @@ def asPrimKey : J → PrimKey
 
 def PrimKey.isValid : PrimKey → Bool | .invalid => false | _ => true
 
-/-- `parseRegexp`: the compiled regexp is represented by its pattern. -/
-def parseRegexp (rx : RegexOracle) : J → Option String
+/-- `parseRegexp`: the compiled regexp is represented by its pattern.  (`value.IsString()` /
+`StringValue()`: a raw string is parsed and used.) -/
+def parseRegexp (rx : RegexOracle) (v : J) : Option String :=
+  match v.unraw with
   | .str p => if (rx p "").isSome then some p else none
   | _ => none
 
-/-- `parseSemVer` -/
-def parseSemVer : J → Option SemVer
+/-- `parseSemVer` (`value.IsString()` / `StringValue()`: a raw string is parsed and used). -/
+def parseSemVer (v : J) : Option SemVer :=
+  match v.unraw with
   | .str s => SemVerM.parse s
   | _ => none
 
@@ -89,7 +93,8 @@ def findKey (key : String) (values : List String) (table : Option (List String))
 def Target.findKey (t : Target) (key : String) : Bool := LD.findKey key t.values t.pre
 def SegmentTarget.findKey (t : SegmentTarget) (key : String) : Bool := LD.findKey key t.values t.pre
 
-/-- `ClauseFindValue` -/
+/-- `ClauseFindValue`: both the key of the context value and the `switch contextValue.Type()` are
+opaque (a raw context value is found nowhere); `Equal` (`primEq`) parses a raw clause value. -/
 def Clause.findValue (c : Clause) (v : J) : Bool :=
   let viaMap : Option Bool :=
     match c.pre.valuesMap with
@@ -131,12 +136,14 @@ def strContains (s sub : String) : Bool := listIsInfix sub.toList s.toList
 def strHasPrefix (s p : String) : Bool := p.toList.isPrefixOf s.toList
 def strHasSuffix (s p : String) : Bool := p.toList.isSuffixOf s.toList
 
-/-- `doOp` -/
+/-- `doOp`.  String, regexp, numeric and semver operators go through `IsString()` / `IsNumber()` /
+`StringValue()` / `Float64Value()`, which parse a raw operand; the date operators go through
+`ValueToTimestamp` / `parseDateTime`, which switch on `Type()` and reject a raw operand. -/
 def doOp (rx : RegexOracle) (c : Clause) (ctxV clV : J) (i : Nat) : Bool :=
   let strOp (f : String → String → Bool) : Bool :=
-    match ctxV, clV with | .str a, .str b => f a b | _, _ => false
+    match ctxV.unraw, clV.unraw with | .str a, .str b => f a b | _, _ => false
   let numOp (f : Rat → Rat → Bool) : Bool :=
-    match ctxV, clV with | .num a, .num b => f a b | _, _ => false
+    match ctxV.unraw, clV.unraw with | .num a, .num b => f a b | _, _ => false
   let dateOp (f : Int → Int → Bool) : Bool :=
     match c.valueAsTimestamp i with
     | some clT => match Time.valueToTimestamp ctxV with
@@ -152,7 +159,7 @@ def doOp (rx : RegexOracle) (c : Clause) (ctxV clV : J) (i : Nat) : Bool :=
   if c.op == "endsWith" then strOp strHasSuffix
   else if c.op == "startsWith" then strOp strHasPrefix
   else if c.op == "matches" then
-    match ctxV with
+    match ctxV.unraw with
     | .str s => match c.valueAsRegexp rx i with
       | some p => (rx p s).getD false
       | none => false
@@ -197,7 +204,9 @@ inductive EvalErr where
   | malformedSegment (k : String) (inner : EvalErr)
   deriving DecidableEq, Repr, Inhabited
 
-/-- `clauseMatchesContextNoSegments` -/
+/-- `clauseMatchesContextNoSegments`.  The null test is `uValue.IsNull()` (a raw `null` is a missing
+attribute); the array test is `uValue.Type() == ArrayType` (a raw array is NOT iterated: it is
+offered to the operator as one value). -/
 def clauseMatchNoSeg (rx : RegexOracle) (ctx : Ctx) (c : Clause) : Except EvalErr Bool :=
   if !c.attr.isDefined then .error .emptyAttr
   else if c.attr.errOf.isSome then .error (.badAttrRef c.attr.raw)
@@ -208,6 +217,6 @@ def clauseMatchNoSeg (rx : RegexOracle) (ctx : Ctx) (c : Clause) : Except EvalEr
       match sc.valueForRef c.attr with
       | .null => .ok false
       | .arr xs => .ok (maybeNegate c.negate (xs.any (matchAny rx c)))
-      | v => .ok (maybeNegate c.negate (matchAny rx c v))
+      | v => if v.isNull then .ok false else .ok (maybeNegate c.negate (matchAny rx c v))
 
 end LD
